@@ -24,6 +24,7 @@ def main(tier, t0):
                                    sizes=lambda t, k: [k + 1] if t == "quick" else [k, k + 1, k + 2],
                                    structure_filter=lambda st: st["name"] in ("opt-literal", "ref-vs-iri", "multi-typed", "own-links", "incoming-fresh"),
                                    cfg={"fixed_flags": {"disable_exact_cardinality": False, "remove_empty_shapes": False}})
+    tasks += [("harness.api", "run_history", "api/ignore-several-lists", dict(name="ignore-several-lists"))]     # concrete: several lists in one process
     results = run_pool(tasks, budget_s=600 if tier == "quick" else 3000)
     m, sm = strfn_check.meta("C16"), step_check.meta("C16")
     meta = dict(functions_encoded=m["functions_encoded"] + sm["functions_encoded"], bounds=dict(m["bounds"], **sm["bounds"]), stubs=["triples yielder of the tracker / filter: a python stub yielding harness-built model triples"],
